@@ -1,0 +1,24 @@
+// Copyright 2021 TiKV Project Authors.
+//
+// Licensed under the Apache License, Version 2.0 (the "License");
+// you may not use this file except in compliance with the License.
+// You may obtain a copy of the License at
+//
+//     http://www.apache.org/licenses/LICENSE-2.0
+//
+// Unless required by applicable law or agreed to in writing, software
+// distributed under the License is distributed on an "AS IS" BASIS,
+// See the License for the specific language governing permissions and
+// limitations under the License.
+
+//go:build verif
+// +build verif
+
+package server
+
+import "go.etcd.io/etcd/clientv3"
+
+// VerifInitOrGetClusterID exports initOrGetClusterID (what every member runs at start-up to agree on the cluster id).
+func VerifInitOrGetClusterID(c *clientv3.Client, key string) (uint64, error) {
+	return initOrGetClusterID(c, key)
+}
